@@ -16,7 +16,7 @@ func bodyComponent(c string) bool {
 
 // C02: first disruptive match interrupts; interruption is final; engine modes hold.
 func C02(run *vf.Run) {
-	run.Rule = "Tx.tla: the Transaction API as a state machine (one action per entry point, Engine.tla as the body of each phase, body buffers with both limit actions). TLC explores every reachable state for call sequences of unbounded length (the witness path is outside the VIEW) over configurations engine mode x one disruptive or ctl:ruleEngine rule in any phase x a second deny in any phase x body access/limits/actions, checking AtMostOnce, InterruptFinal, NothingAfterInterrupt, SameInterruptionReported, DetectionOnlySilent, OffEvaluatesNothing in every state; every edge of the state graph (witness path + call) is replayed on a real transaction and the returned interruption, recorded interruption, fired rules (marker rule per phase = evaluation count), last phase and engine mode are compared with the specified successor(s). Non-trivial = a path on which some rule fired or body bytes were stored"
+	run.Rule = "Tx.tla: the Transaction API as a state machine (one action per entry point, Engine.tla as the body of each phase, body buffers with both limit actions). TLC explores every reachable state for call sequences of unbounded length (the witness path is outside the VIEW) over configurations engine mode x one disruptive (deny / drop / redirect, with a status action written before or after it) or ctl:ruleEngine rule in any phase x a second deny in any phase x body access/limits/actions, checking AtMostOnce, InterruptFinal, NothingAfterInterrupt, SameInterruptionReported, DetectionOnlySilent, OffEvaluatesNothing in every state; every edge of the state graph (witness path + call) is replayed on a real transaction and the returned interruption, recorded interruption, fired rules (marker rule per phase = evaluation count), last phase and engine mode are compared with the specified successor(s). Non-trivial = a path on which some rule fired or body bytes were stored"
 	run.Exhaustive = true
 	run.Assume("TLC 1.8.0 explores the bounded Tx_MC instance completely")
 	run.Assume("calls after Close are not generated; ProcessLogging is called at most once per transaction")
@@ -28,7 +28,7 @@ func C02(run *vf.Run) {
 	}
 	txm.ReplayEdges(run, txm.MCOpts{Name: "lifecycle-edges", Engines: `{"On", "DetectionOnly"}`, ReqLimits: "{2}", Ks: vf.Pick(run, "{3}", "{1, 3}"), Modes: `{"slice"}`,
 		CallNames:    vf.Pick(run, `{"PRH", "PRB", "PRSH", "PRSB", "PL", "WREQ"}`, `{"PRH", "PRB", "PRSH", "PRSB", "PL", "WREQ", "WRESP"}`),
-		DisruptKinds: vf.Pick(run, `{"deny", "redirect", "ctlDet", "ctlOn", "ctlOff", "ctlReqOn", "ctlReqOff"}`, `{"deny", "drop", "redirect", "ctlDet", "ctlOn", "ctlOff", "ctlReqOn", "ctlReqOff", "ctlRespOn", "ctlRespOff"}`),
+		DisruptKinds: vf.Pick(run, `{"deny", "redirect", "redirect301late", "ctlDet", "ctlOn", "ctlOff", "ctlReqOn", "ctlReqOff"}`, `{"deny", "deny401late", "drop", "redirect", "redirect301", "redirect301late", "ctlDet", "ctlOn", "ctlOff", "ctlReqOn", "ctlReqOff", "ctlRespOn", "ctlRespOff"}`),
 		Phases2:      "{1, 2, 3, 4, 5}", Workers: 14, Timeout: vf.Pick(run, 15*time.Minute, 120*time.Minute), Relevant: rel})
 }
 
